@@ -4,7 +4,7 @@
 set -u
 ID="$1"; shift
 W=${SEED_BASE:-/tmp/seed}/$ID
-OUT=/verif/seeded/$ID${SEED_SUFFIX:-}
+OUT=/verif/seeded/${SEED_OUT:-$ID${SEED_SUFFIX:-}}
 mkdir -p "$OUT"
 git -C "$W" diff > "$OUT/patch.diff"
 cp "$W"/demo_*.py "$OUT"/ 2>/dev/null
@@ -28,5 +28,6 @@ import json,sys
 id_,t1,d1,d0,res=sys.argv[1:6]; props=sys.argv[6:]
 meta={"id":id_,"breaks_property":props[0],"checks_run":props,"tests_with_change":t1,"demo_exit_with_change":int(d1),"demo_exit_without_change":int(d0),
       "check_results":res.strip(),"needs_to_manifest":"(fill in)","how_confirmed":"tools/try_seed.sh: pytest in the scratch worktree with PYTHONPATH set, demo with and without the change (patch reversed), ./check with VERIF_REPO=<worktree>"}
-json.dump(meta,open(f"/verif/seeded/{id_}"+__import__("os").environ.get("SEED_SUFFIX","")+"/meta.json","w"),indent=1)
+import os
+json.dump(meta,open("/verif/seeded/"+os.environ.get("SEED_OUT", id_+os.environ.get("SEED_SUFFIX",""))+"/meta.json","w"),indent=1)
 PY
